@@ -32,6 +32,7 @@ SHAPES = {
     "R5any": ("$X.iter().any($P)", "vf_iter_any($X, $P)"),
     "R5all": ("$X.iter().all($P)", "vf_iter_all($X, $P)"),
     "R5mall": ("$X.iter().map($F).all($P)", "vf_iter_map_all($X, $F, $P)"),
+    "Rz":    ("$X.iter().zip($Y).all($P)", "vf_zip_all($X, $Y, $P)"),
     "R6":    ("$X.iter().fold($I, $F)", "vf_iter_fold($X, $I, $F)"),
     "R6r":   ("$X.into_iter().map($F).reduce($G).unwrap_or($D)", "vf_map_reduce_or($X, $F, $G, $D)"),
     # rule E6: conversions through From/Into become calls of the assumed VfInto instances
@@ -372,7 +373,7 @@ def render_stub(unit: Unit, repo: Repo, log: list) -> str:
 PRELUDE = """// GENERATED by /verif/vx — do not edit.  Unit under proof: {unit}
 #![allow(unused_imports, dead_code, unused_variables, non_snake_case)]
 use vstd::prelude::*;
-use std::cmp::{{max, min}};
+use std::cmp::{{max, min, Ordering}};
 verus! {{
 global size_of usize == 8;
 pub type QueryPath = String;
